@@ -17,14 +17,17 @@ import (
 	"encoding/json"
 	"fmt"
 	"io"
+	"net"
 	"net/http"
 	"net/http/httptest"
+	"net/http/httptrace"
 	goruntime "runtime"
 	"sort"
 	"strconv"
 	"strings"
 	"sync"
 	"testing"
+	"time"
 
 	"github.com/megaease/easegress/pkg/context"
 	"github.com/megaease/easegress/pkg/logger"
@@ -59,6 +62,7 @@ type c11MuxReq struct {
 	BodyLen int    `json:"bodyLen"`
 	Chunked bool   `json:"chunked"`
 	XFF     string `json:"xff"`
+	IP      string `json:"ip"` // client address ("" = 10.1.2.3)
 }
 
 // what one request observed
@@ -189,6 +193,9 @@ func c11StdReq(rq c11MuxReq) *http.Request {
 		}
 	}
 	std.RemoteAddr = "10.1.2.3:5555"
+	if rq.IP != "" {
+		std.RemoteAddr = rq.IP + ":5555"
+	}
 	if rq.XFF != "" {
 		std.Header.Set("X-Forwarded-For", rq.XFF)
 	}
@@ -436,6 +443,218 @@ func c11RunConc(in c11ConcIn) (obs c11ConcObs) {
 	return
 }
 
+// ---------------------------------------------------------------------------
+// grp "restart": runtime.reload must not restart the listener for a hot-updatable change
+
+type c11RtSpec struct {
+	PortAlt      bool     `json:"portAlt"` // listen on the second of the two ports of the case
+	KeepAlive    bool     `json:"keepAlive"`
+	KATimeout    string   `json:"kaTimeout"`
+	MaxBody      int64    `json:"maxBody"`
+	GlobalFilter string   `json:"globalFilter"`
+	XFF          bool     `json:"xff"`
+	Cache        int      `json:"cache"`
+	MaxConn      int      `json:"maxConn"`
+	Block        []string `json:"block"` // server-level ipFilter
+	RulesTag     string   `json:"rulesTag"`
+	PathBlock    bool     `json:"pathBlock"`
+}
+
+type c11RestartIn struct {
+	Old  c11RtSpec `json:"old"`
+	New  c11RtSpec `json:"new"`
+	Live bool      `json:"live"` // also hold a real keep-alive connection across the reload
+}
+
+type c11RestartObs struct {
+	Need       bool   `json:"need"`       // runtime.needRestartServer(old -> new)
+	StartDelta int    `json:"startDelta"` // increase of runtime.startNum caused by reload(new)
+	Live       string `json:"live"`       // "" not tried | "reused" | "newconn" | "failed" | "skipped"
+	Bad        string `json:"bad,omitempty"`
+}
+
+func c11RtYAML(s c11RtSpec, ports [2]int) string {
+	port := ports[0]
+	if s.PortAlt {
+		port = ports[1]
+	}
+	var sb strings.Builder
+	fmt.Fprintf(&sb, "kind: HTTPServer\nname: srv\nport: %d\nkeepAlive: %v\nhttps: false\nxForwardedFor: %v\nclientMaxBodySize: %d\ncacheSize: %d\n",
+		port, s.KeepAlive, s.XFF, s.MaxBody, s.Cache)
+	if s.KATimeout != "" {
+		fmt.Fprintf(&sb, "keepAliveTimeout: %s\n", s.KATimeout)
+	}
+	if s.MaxConn > 0 {
+		fmt.Fprintf(&sb, "maxConnections: %d\n", s.MaxConn)
+	}
+	if s.GlobalFilter != "" {
+		fmt.Fprintf(&sb, "globalFilter: %s\n", s.GlobalFilter)
+	}
+	if len(s.Block) > 0 {
+		fmt.Fprintf(&sb, "ipFilter:\n  blockByDefault: false\n  blockIPs: [%s]\n", strings.Join(s.Block, ", "))
+	}
+	fmt.Fprintf(&sb, "rules:\n- paths:\n  - path: /a\n    backend: p%s\n", s.RulesTag)
+	if s.PathBlock {
+		sb.WriteString("    ipFilter:\n      blockByDefault: false\n      blockIPs: [10.7.7.7]\n")
+	}
+	return sb.String()
+}
+
+func c11FreePorts() (p [2]int) {
+	for i := range p {
+		l, err := net.Listen("tcp", "127.0.0.1:0")
+		if err != nil {
+			return [2]int{18081, 18082}
+		}
+		p[i] = l.Addr().(*net.TCPAddr).Port
+		defer l.Close()
+	}
+	return
+}
+
+func c11RunRestart(in c11RestartIn) (obs c11RestartObs) {
+	ports := c11FreePorts()
+	ssOld, err1 := supervisor.NewSpec(c11RtYAML(in.Old, ports))
+	ssNew, err2 := supervisor.NewSpec(c11RtYAML(in.New, ports))
+	if err1 != nil || err2 != nil {
+		obs.Bad = fmt.Sprintf("spec rejected: %v %v", err1, err2)
+		return
+	}
+	mm := &c11Mapper{id: "m"}
+	// the decision function itself
+	obs.Need = (&runtime{spec: ssOld.ObjectSpec().(*Spec)}).needRestartServer(ssNew.ObjectSpec().(*Spec))
+	if !in.Live {
+		// what reload does with that decision: a runtime whose first start is faked (no listener yet);
+		// startServer is only reached when the decision is "restart"
+		rt := &runtime{superSpec: ssOld, spec: ssOld.ObjectSpec().(*Spec), eventChan: make(chan interface{}, 10),
+			httpStat: httpstat.New(), topN: httpstat.NewTopN(topNum), startNum: 1}
+		rt.mux = newMux(rt.httpStat, rt.topN, mm)
+		rt.setState(stateRunning)
+		rt.setError(errNil)
+		rt.mux.reload(ssOld, mm)
+		before := rt.startNum
+		rt.reload(ssNew, mm) // a restart binds a (free) loopback-visible port; released right below
+		obs.StartDelta = int(rt.startNum - before)
+		rt.closeServer()
+		return
+	}
+	// live: a real listener on a loopback port and one keep-alive client connection
+	rt := &runtime{superSpec: ssOld, eventChan: make(chan interface{}, 10), httpStat: httpstat.New(), topN: httpstat.NewTopN(topNum)}
+	rt.mux = newMux(rt.httpStat, rt.topN, mm)
+	rt.setState(stateNil)
+	rt.setError(errNil)
+	rt.reload(ssOld, mm)
+	defer rt.closeServer()
+	if rt.getState() != stateRunning {
+		obs.Live = "skipped"
+		obs.Bad = "listen: " + rt.getError().Error()
+		return
+	}
+	port := ports[0]
+	if in.Old.PortAlt {
+		port = ports[1]
+	}
+	tr := &http.Transport{MaxIdleConnsPerHost: 1, IdleConnTimeout: 30 * time.Second}
+	defer tr.CloseIdleConnections()
+	cli := &http.Client{Transport: tr, Timeout: 5 * time.Second}
+	do := func() (status int, reused bool, err error) {
+		req, _ := http.NewRequest("GET", fmt.Sprintf("http://127.0.0.1:%d/a", port), nil)
+		trace := &httptrace.ClientTrace{GotConn: func(ci httptrace.GotConnInfo) { reused = ci.Reused }}
+		req = req.WithContext(httptrace.WithClientTrace(req.Context(), trace))
+		resp, e := cli.Do(req)
+		if e != nil {
+			return 0, reused, e
+		}
+		io.Copy(io.Discard, resp.Body)
+		resp.Body.Close()
+		return resp.StatusCode, reused, nil
+	}
+	var st int
+	for try := 0; try < 50; try++ { // wait for the accept loop
+		if st, _, err1 = do(); err1 == nil {
+			break
+		}
+		time.Sleep(10 * time.Millisecond)
+	}
+	if err1 != nil || st != 200 {
+		obs.Live = "skipped"
+		obs.Bad = fmt.Sprintf("first request: %v %d", err1, st)
+		return
+	}
+	before := rt.startNum
+	rt.reload(ssNew, mm)
+	obs.StartDelta = int(rt.startNum - before)
+	st, reused, err := do()
+	switch {
+	case err != nil || st != 200:
+		obs.Live = "failed"
+	case reused:
+		obs.Live = "reused"
+	default:
+		obs.Live = "newconn"
+	}
+	return
+}
+
+func c11GenRtSpec(r *vfRand) c11RtSpec {
+	s := c11RtSpec{KeepAlive: true, KATimeout: r.PickStr("", "", "30s"), MaxBody: int64(r.PickInt(0, 0, 1024)),
+		GlobalFilter: r.PickStr("", "", "gf"), XFF: r.Bool(), Cache: r.PickInt(0, 16), MaxConn: r.PickInt(0, 100, 2000),
+		RulesTag: "A", PathBlock: r.Chance(1, 3)}
+	if r.Chance(1, 2) {
+		s.Block = []string{r.PickStr("10.7.7.7", "10.8.8.8")}
+	}
+	return s
+}
+
+func c11GenRestart(r *vfRand, live bool) c11RestartIn {
+	in := c11RestartIn{Old: c11GenRtSpec(r), Live: live}
+	if live {
+		in.Old.GlobalFilter = "" // needs a supervisor at request time
+	}
+	in.New = in.Old
+	in.New.Block = append([]string{}, in.Old.Block...)
+	hot := func() {
+		switch r.Intn(8) {
+		case 0:
+			in.New.RulesTag = "B"
+		case 1:
+			if len(in.New.Block) > 0 && r.Bool() {
+				in.New.Block = nil
+			} else {
+				in.New.Block = []string{r.PickStr("10.7.7.7", "10.6.6.6")}
+			}
+		case 2:
+			in.New.XFF = !in.New.XFF
+		case 3:
+			in.New.Cache = []int{0, 16, 64}[r.Intn(3)]
+		case 4:
+			in.New.MaxConn = []int{100, 2000, 5000}[r.Intn(3)]
+		case 5:
+			in.New.PathBlock = !in.New.PathBlock
+		default: // unchanged
+		}
+	}
+	for k := r.Range(1, 3); k > 0; k-- {
+		hot()
+	}
+	if !live && r.Chance(1, 3) {
+		// a change that concerns the listener (or that the code treats as such)
+		switch r.Intn(5) {
+		case 0:
+			in.New.PortAlt = !in.New.PortAlt
+		case 1:
+			in.New.KeepAlive = !in.New.KeepAlive
+		case 2:
+			in.New.KATimeout = r.PickStr("10s", "45s")
+		case 3:
+			in.New.MaxBody = in.New.MaxBody + 7
+		default:
+			in.New.GlobalFilter = in.New.GlobalFilter + "x"
+		}
+	}
+	return in
+}
+
 // two specs generated so that they differ in every observable of the property
 func c11GenSpecs(r *vfRand, n int) []c11MuxSpec {
 	out := []c11MuxSpec{}
@@ -489,7 +708,10 @@ func c11OptionsOnly(r *vfRand, base c11MuxSpec, tag string) c11MuxSpec {
 		}
 		return []string{"10.1.2.3"}
 	}
-	switch r.Intn(6) {
+	switch r.Intn(9) {
+	case 6, 7, 8:
+		// nothing changes at all (what a pipeline update triggers): the reload must still be a
+		// complete new generation
 	case 0, 1, 2:
 		s.Block = toggle(base.Block) // the client becomes blocked / un-blocked at server level
 	case 3:
@@ -535,6 +757,12 @@ func TestVerifC11Mux(t *testing.T) {
 				t.Fatal(err)
 			}
 			out.Emit(vfCase{ID: sc.ID, Src: sc.Src, Grp: "conc", In: in, Obs: c11RunConc(in)})
+		case "restart":
+			var in c11RestartIn
+			if err := json.Unmarshal(sc.In, &in); err != nil {
+				t.Fatal(err)
+			}
+			out.Emit(vfCase{ID: sc.ID, Src: sc.Src, Grp: "restart", In: in, Obs: c11RunRestart(in)})
 		}
 	}
 	if vfReplayOnly() {
@@ -550,11 +778,20 @@ func TestVerifC11Mux(t *testing.T) {
 	thorough := vfTier() == "thorough"
 	for i := 0; i < n; i++ {
 		r := root.Fork(i)
+		if i%10 == 4 {
+			// one case in four holds a real keep-alive connection across the reload
+			in := c11GenRestart(r, i%40 == 4)
+			out.Emit(vfCase{ID: fmt.Sprintf("%s-restart-%d", src, i), Src: src, Grp: "restart", In: in, Obs: c11RunRestart(in)})
+			continue
+		}
 		if i%10 == 9 {
 			in := c11ConcIn{Specs: c11GenSpecs(r, r.Range(2, 3)), Clients: r.Range(2, 6), PerCli: 40}
 			optsOnly := r.Chance(1, 3)
 			if optsOnly {
 				in.Specs[0].Cache = 16
+				if r.Chance(1, 2) {
+					in.Specs[0].Paths[r.Intn(len(in.Specs[0].Paths))].Block = []string{"10.9.9.9"}
+				}
 				for k := 1; k < len(in.Specs); k++ {
 					in.Specs[k] = c11OptionsOnly(r, in.Specs[k-1], string(rune('A'+k)))
 				}
@@ -565,7 +802,8 @@ func TestVerifC11Mux(t *testing.T) {
 			for k := r.Range(2, 4); k > 0; k-- {
 				q := c11GenReq(r)
 				if optsOnly {
-					q.XFF = "" // one client identity per case (cross-client cache defects are C12's business)
+					q.XFF = ""
+					q.IP = r.PickStr("", "", "10.9.9.9")
 				}
 				in.Reqs = append(in.Reqs, q)
 			}
@@ -607,10 +845,22 @@ func TestVerifC11Mux(t *testing.T) {
 			for k := 1; k < len(in.Specs); k++ {
 				in.Specs[k] = c11OptionsOnly(r, in.Specs[k-1], string(rune('A'+k)))
 			}
-			// one client identity per case: the route cache's cross-client defects are C12's business
 			in.Req.XFF, in.Follow.XFF = "", ""
 			if r.Chance(3, 4) {
 				in.Follow = in.Req
+			}
+			if r.Chance(1, 2) {
+				// a second client that a path-level filter of generation 0 blocks: the first client
+				// warms the cache before the reload, the second one asks for the same key after it
+				for k := range in.Specs[0].Paths {
+					if r.Chance(2, 3) {
+						in.Specs[0].Paths[k].Block = []string{"10.9.9.9"}
+					}
+				}
+				for k := 1; k < len(in.Specs); k++ {
+					in.Specs[k] = c11OptionsOnly(r, in.Specs[k-1], string(rune('A'+k)))
+				}
+				in.Follow.IP = "10.9.9.9"
 			}
 		}
 		out.Emit(vfCase{ID: fmt.Sprintf("%s-sched-%d", src, i), Src: src, Grp: "sched", In: in, Obs: c11RunSched(in)})
